@@ -320,6 +320,78 @@ def gen_history(rng, mode, length):
     return ops
 
 
+def gen_scenario(rng):
+    """directed histories for the change classes a random walk reaches rarely: removeReader while the writer stays,
+    write-only descriptors whose peer closes (hang-up without IN), full send buffer, re-registration after a hang-up
+    with and without the client's discard, number reuse afterwards.  The poller is always a shared one (registered
+    on the root manager, owners are siblings), so a target lost anywhere shows as channel 0."""
+    ops = []
+    c1, c2 = rng.choice([(1, 2), (2, 1), (1, 1), (2, 2)])
+    f1, f2 = rng.sample(range(NUMS), 2)
+
+    def t(p=0.6):
+        if rng.random() < p:
+            ops.append(['tick'])
+
+    kind = rng.choice(['remR_keepW', 'wonly_pclose', 'both_remR_pclose', 'two_owners_hup', 'full_then_pclose'])
+    ops.append(['open', 1, f1])
+    if kind == 'remR_keepW':
+        first = rng.choice(['addR', 'addW'])
+        ops.append([first, c1, 1]); t(0.3)
+        ops.append(['addW' if first == 'addR' else 'addR', c1, 1]); t()
+        if rng.random() < 0.5:
+            ops.append(['fill', 1]); t()
+        ops.append(['remR', 1]); t(0.9)
+        ops.append(['pw', 1]); t()
+        if ['fill', 1] in ops:
+            ops.append(['unfill', 1]); t(0.9)
+        ops.append(['tick'])
+        if rng.random() < 0.5:
+            ops.append(['addR', c1, 1]); t(0.9)
+        ops.append([rng.choice(['remW', 'discard']), 1]); ops.append(['tick'])
+    elif kind == 'wonly_pclose':
+        ops.append(['addW', c1, 1]); t()
+        if rng.random() < 0.4:
+            ops.append(['pw', 1])
+        ops.append(['pclose', 1]); ops.append(['tick']); t(0.8)
+        follow = rng.choice(['discard', 'readd', 'nothing'])
+        if follow == 'discard':
+            ops.append(['discard', 1]); ops.append(['tick'])
+            if rng.random() < 0.6:
+                ops.append(['close', 1]); ops.append(['open', 2, f1]); ops.append(['addR', c2, 2]); ops.append(['pw', 2]); ops.append(['tick'])
+        elif follow == 'readd':
+            ops.append(['discard', 1]); ops.append(['addR', c1, 1]); ops.append(['addW', c1, 1]); ops.append(['tick']); ops.append(['tick'])
+    elif kind == 'both_remR_pclose':
+        ops.append(['addR', c1, 1]); ops.append(['addW', c1, 1]); t()
+        if rng.random() < 0.5:
+            ops.append(['pclose', 1]); ops.append(['tick']); ops.append(['remR', 1])
+        else:
+            ops.append(['remR', 1]); t(); ops.append(['pclose', 1])
+        ops.append(['tick']); ops.append(['tick']); ops.append(['discard', 1]); ops.append(['tick'])
+    elif kind == 'two_owners_hup':
+        ops.append(['open', 2, f2])
+        ops.append(['addW', c1, 1]); ops.append(['addR', c2, 2]); ops.append(['addW', c2, 2]); t()
+        ops.append(['pclose', rng.choice([1, 2])]); ops.append(['tick'])
+        ops.append(['remR', 2]); ops.append(['tick']); ops.append(['pclose', rng.choice([1, 2])]) if rng.random() < 0.5 else None
+        ops.append(['tick']); ops.append(['tick'])
+    else:
+        ops.append(['addW', c1, 1]); ops.append(['fill', 1]); ops.append(['tick'])
+        if rng.random() < 0.5:
+            ops.append(['addR', c1, 1]); t()
+        ops.append(['pclose', 1]); ops.append(['tick']); ops.append(['tick'])
+        ops.append(['discard', 1]); ops.append(['close', 1]); ops.append(['open', 3, f1]); ops.append(['pw', 3]); ops.append(['tick'])
+    ops = [o for o in ops if o is not None]
+    # a peer cannot be closed twice
+    seen, out = set(), []
+    for o in ops:
+        if o[0] == 'pclose':
+            if o[1] in seen:
+                continue
+            seen.add(o[1])
+        out.append(o)
+    return kind, out
+
+
 class C10(Prop):
     id = 'C10'
     props_file = 'Props/C10.v'
@@ -338,17 +410,22 @@ class C10(Prop):
     assumptions = ['kernel behaviour of select/poll/epoll is a modelled abstract machine (partial), validated only by the correspondence run',
                    'API precondition: a role is added only when not already registered; one owning component per descriptor',
                    'the control descriptor (_ctrl_recv) and threads (resume) are outside the model',
-                   'agreement of the three pollers is claimed for descriptors that are not in hang-up/error state while registered for writing only']
+                   'agreement along histories (C10_agree_history*) assumes: select-readable = POLLIN and select-writable = POLLOUT for every status (measured: statuses_select_differs_from_poll), descriptors discarded before close, a descriptor Poll/EPoll hung up on is discarded before it is registered again']
 
     def __init__(self):
         self._rec = {}
         self.stats = {'ops': {}, 'modes': {}, 'events': {'read': 0, 'write': 0, 'disconnect': 0},
                       'ticks': 0, 'reuse_opens': 0, 'crash_cases': 0, 'hup_statuses': 0, 'err_statuses': 0,
-                      'select_preen_ticks': 0, 'oracle_abstained_cases': 0}
+                      'select_preen_ticks': 0, 'oracle_abstained_cases': 0, 'statuses': 0,
+                      'statuses_select_differs_from_poll': 0, 'hangup_only_disconnects': 0, 'remR_with_writer_kept': 0}
 
     def generate(self, rng, n, tier):
         cases = []
         for i in range(n):
+            if rng.random() < 0.22:
+                kind, ops = gen_scenario(rng)
+                cases.append({'k': 'hist', 'mode': 'scen:' + kind, 'ops': ops})
+                continue
             r = rng.random()
             mode = 'disc' if r < 0.45 else ('close' if r < 0.85 else 'wild')
             ops = gen_history(rng, mode, rng.randint(6, 22 if tier == "quick" else 32))
@@ -386,6 +463,24 @@ class C10(Prop):
             for bits in st.values():
                 self.stats['hup_statuses'] += bits[2]
                 self.stats['err_statuses'] += bits[3]
+                self.stats['statuses'] += 1
+                # hypothesis `consistent` of C10_agree_history: select-readable = POLLIN, select-writable = POLLOUT
+                self.stats['statuses_select_differs_from_poll'] += int(bits[4] != bits[0] or bits[5] != bits[1])
+        for row in obs['EPoll']['ticks']:
+            self.stats['hangup_only_disconnects'] += sum(len(cell[2]) for cell in row)
+        Rg, Wg = set(), set()
+        for op in ops:
+            if op[0] == 'addR':
+                Rg.add(op[2])
+            elif op[0] == 'addW':
+                Wg.add(op[2])
+            elif op[0] == 'remR':
+                self.stats['remR_with_writer_kept'] += int(op[1] in Rg and op[1] in Wg)
+                Rg.discard(op[1])
+            elif op[0] == 'remW':
+                Wg.discard(op[1])
+            elif op[0] == 'discard':
+                Rg.discard(op[1]), Wg.discard(op[1])
         return obs
 
     def obs_for_model(self, c, obs):
